@@ -1,0 +1,25 @@
+//! Verification hooks (compiled only with the `verif-hooks` feature).
+//!
+//! A thread-local counter of `Value::resolve` activations, used by external runtime
+//! monitors as a time-independent measure of evaluation work.
+use std::cell::Cell;
+
+thread_local! {
+    static RESOLVE_STEPS: Cell<u64> = const { Cell::new(0) };
+}
+
+/// Called at the top of every `Value::resolve` activation.
+#[inline(always)]
+pub(crate) fn step() {
+    RESOLVE_STEPS.with(|c| c.set(c.get().wrapping_add(1)));
+}
+
+/// Resets the calling thread's step counter to zero.
+pub fn reset() {
+    RESOLVE_STEPS.with(|c| c.set(0));
+}
+
+/// Number of `Value::resolve` activations on the calling thread since the last `reset`.
+pub fn steps() -> u64 {
+    RESOLVE_STEPS.with(|c| c.get())
+}
